@@ -30,11 +30,15 @@ ASSUMPTIONS = [
     'token, as it silently does after a `return`) is outside C14 (that is C07 / C08); such runs are compared with '
     'the model but not judged',
 ]
-PARTIAL = ('C14_tokens (significant tokens of the result = header ++ package blocks ++ loader ++ main tokens, package '
-           'bodies intact apart from the stripped game-loop functions) is not proved in Coq: it needs the lexer '
-           'stack\'s chunking lemma (chunks ending in a newline lex independently) and C06\'s echo theorem; it is '
-           'checked on every run by the extracted monitor holds_C14 instead. C14_structure_bytes carries C06\'s '
-           'echo statement as an explicit hypothesis.')
+PARTIAL = ('The token-level clause (significant tokens of the result = header ++ package blocks ++ loader ++ main '
+           'tokens, package bodies intact apart from the stripped game-loop functions) is proved only RELATIVE to '
+           'hypotheses that are visible in the statements and not discharged for the concrete stack: '
+           'C14_tokens_partial / C14_tokens_partial_now assume the reference tokenizer\'s chunking property (a text '
+           'ending in a newline lexes independently of what follows; a final newline adds no token: C07\'s chunking '
+           'lemma) and the lexer\'s faithful echo (C06); C14_block_tokens_partial additionally assumes that the '
+           'stripping step acts on significant tokens as the removal of the game-loop definitions. The clause itself is '
+           'checked on every run by the extracted monitor holds_C14. C14_structure_bytes carries C06\'s echo '
+           'statement as an explicit hypothesis.')
 CLAIM = dict(
     text=("Theorems (Coq, closed under the global context) about a model of build.py's _evaluate_require / "
           "RequireWalker / _prepend_package_lua, proved for EVERY lexer, parser, walker, name check, file map and load "
@@ -45,8 +49,9 @@ CLAIM = dict(
           "byte for byte), C14_once (table names distinct, exactly the names reachable through require(), each after a "
           "requirer, each a located+parsed+stripped file; cycles terminate), C14_errors* (walker exception / refused "
           "name / missing file => the build returns an error and no output), C14_terminates(_now) (1 + number of "
-          "require strings is enough fuel; more fuel never changes the result). The token-level clause is partial "
-          "(see partial). Tie: correspondence of the extracted model (full lexer+parser+walker stack) with the real "
+          "require strings is enough fuel; more fuel never changes the result), C14_dfs_exact (the search computes "
+          "exactly the fuel-free depth-first relation Run). The token-level clause is partial: C14_tokens_partial(_now) "
+          "and C14_block_tokens_partial prove it relative to named hypotheses about the lexer stack (see partial). Tie: correspondence of the extracted model (full lexer+parser+walker stack) with the real "
           "`p8tool build` on generated package graphs (code bytes of OUT.p8, error class), RequireWalker alone on "
           "every generated file, and the extracted instance predicate holds_C14 (Spec/ + Base/ only: reference "
           "tokenizer, token-level require / game-loop / load-path description written from the README) on the real "
